@@ -71,6 +71,11 @@ pub struct Interpreter<TStdlib: Stdlib, TStdIn: Input, TStdOut: Printer, TLpt1: 
     /// call leaves behind are dropped when it returns.
     go_sub_bases: Vec<usize>,
 
+    /// For every active function/sub call, the depths of the register stack and of the value
+    /// stack when it was entered. Whatever way the call ends (e.g. `EXIT SUB` from a GOSUB
+    /// routine that was entered from inside a FOR loop), its frames end with it.
+    call_depths: Vec<(usize, usize)>,
+
     /// Holds the current call stack
     stacktrace: Vec<Position>,
 
@@ -309,6 +314,7 @@ impl<TStdlib: Stdlib, TStdIn: Input, TStdOut: Printer, TLpt1: Printer>
             go_sub_address_stack: vec![],
             go_sub_depths: vec![],
             go_sub_bases: vec![],
+            call_depths: vec![],
             register_stack: vec![Registers::new()],
             stacktrace: vec![],
             file_manager: FileManager::new(),
@@ -499,6 +505,8 @@ impl<TStdlib: Stdlib, TStdIn: Input, TStdOut: Printer, TLpt1: Printer>
                 }
                 self.return_address_stack.push(*address);
                 self.go_sub_bases.push(self.go_sub_address_stack.len());
+                self.call_depths
+                    .push((self.register_stack.len(), self.value_stack.len()));
                 // the function/sub that is being called gets its own statement snapshot
                 self.statement_snapshots.push(StatementSnapshot::default());
                 self.take_statement_snapshot();
@@ -509,6 +517,10 @@ impl<TStdlib: Stdlib, TStdIn: Input, TStdOut: Printer, TLpt1: Printer>
                 if let Some(base) = self.go_sub_bases.pop() {
                     self.go_sub_address_stack.truncate(base);
                     self.go_sub_depths.truncate(base);
+                }
+                if let Some((registers, values)) = self.call_depths.pop() {
+                    self.register_stack.truncate(registers.max(1));
+                    self.value_stack.truncate(values);
                 }
                 if self.statement_snapshots.len() > 1 {
                     self.statement_snapshots.pop();
@@ -564,6 +576,7 @@ impl<TStdlib: Stdlib, TStdIn: Input, TStdOut: Printer, TLpt1: Printer>
                     self.go_sub_depths.truncate(*base);
                 }
                 self.go_sub_bases.clear();
+                self.call_depths.clear();
                 self.stacktrace.clear();
                 self.print_state_stack.clear();
                 self.var_path_stack.clear();
